@@ -114,6 +114,25 @@ class CEval:
     def call(self, short: str, node: ast.Call, depth: int) -> Node:
         ln = node.lineno
         a = node.args
+        if short in ("Struct", "BitStruct"):
+            # Struct(*FIELDS) with FIELDS a module-level tuple / list of subcons; Struct(name=subcon, ...) keyword fields
+            flat = []
+            for x in a:
+                if isinstance(x, ast.Starred):
+                    src = x.value
+                    if isinstance(src, ast.Name) and src.id in self.mod.constants:
+                        src = self.mod.constants[src.id]
+                    if not isinstance(src, (ast.Tuple, ast.List)):
+                        raise AnalysisError(f"construct: unsupported expression {ast.unparse(x)[:60]}")
+                    flat.extend(src.elts)
+                else:
+                    flat.append(x)
+            for k in node.keywords:
+                if k.arg is None:
+                    raise AnalysisError("construct: **fields are not followed")
+                named = ast.BinOp(left=ast.Constant(k.arg), op=ast.Div(), right=k.value)
+                flat.append(ast.copy_location(named, k.value))
+            a = flat
         if short == "Struct":
             kids = [self.ev(x, depth + 1) for x in a]
             return Node("Struct", None, _seq_size(kids), kids, {"mod": _seq_mod(kids)}, ln)
